@@ -48,7 +48,7 @@ func GetGlobal() simpleblob.Interface {
 	mu.RLock()
 	st = storage
 	mu.RUnlock()
-	if st != nil {
+	if st == nil {
 		// Should never happen
 		panic("Storage still nil after wait()")
 	}
